@@ -1,0 +1,48 @@
+//go:build verif
+
+package device
+
+// VerifStagedOwnership walks the staged queues of all peers (meant for quiescent
+// points) and counts ownership defects among the queued outbound elements:
+// cleared = elements that were given back to the pool while still queued (a nil
+// element or an element whose buffer pointer was cleared), shared = elements or
+// message buffers that are referenced more than once.  Add-only accessor for the
+// verification harness (property C20: "no buffer is ever owned by two packets").
+func (device *Device) VerifStagedOwnership() (elems, cleared, shared int) {
+	device.peers.RLock()
+	peers := make([]*Peer, 0, len(device.peers.keyMap))
+	for _, p := range device.peers.keyMap {
+		peers = append(peers, p)
+	}
+	device.peers.RUnlock()
+	seenElem := map[*QueueOutboundElement]bool{}
+	seenBuf := map[*[MaxMessageSize]byte]bool{}
+	for _, peer := range peers {
+		var held []*QueueOutboundElementsContainer
+	drain:
+		for {
+			select {
+			case c := <-peer.queue.staged:
+				held = append(held, c)
+			default:
+				break drain
+			}
+		}
+		for _, c := range held {
+			for _, e := range c.elems {
+				elems++
+				if e == nil || e.buffer == nil {
+					cleared++
+					continue
+				}
+				if seenElem[e] || seenBuf[e.buffer] {
+					shared++
+				}
+				seenElem[e] = true
+				seenBuf[e.buffer] = true
+			}
+			peer.queue.staged <- c
+		}
+	}
+	return
+}
